@@ -106,7 +106,7 @@ Definition get_virtual_addr (offset : N) (s : section) : N :=
   sub64 (add64 (sh_addr s) offset) (sh_offset s).
 
 Definition sections_overlap_reported (a b : section) : bool :=
-  (N.land (sh_type a) SHT_NOBITS =? 0) && (N.land (sh_type b) SHT_NOBITS =? 0) &&
+  negb (sh_type a =? SHT_NOBITS) && negb (sh_type b =? SHT_NOBITS) &&      (* since the C20 fix *)
   (0 <? sh_size a) && (0 <? sh_size b) && (0 <? sh_offset a) && (0 <? sh_offset b) &&
   (is_offset_in_section (sh_offset a) b ||
    is_offset_in_section (sub64 (add64 (sh_offset a) (sh_size a)) 1) b ||
